@@ -257,12 +257,13 @@ impl Prop for C03 {
                     }
                     if waiting_input {
                         waiting_input = false;
-                        let r = match rng.usize(9) {
+                        let r = match rng.usize(10) {
                             0 => "1,2,3".to_string(),
                             1 => "\"a,b\",\"".to_string(),
                             2 => String::new(),
                             6 => rng.pick(&["\"", "\"\"", "\"\"\"", " \" ", "a,\"", "\",b", "1,\",3", "\"é", "é\"", ",", ",,", " , , ", "1,\"", "1,2,\"", "x, \" ", "1,2,\"\""]).to_string(),
-                            7 => format!("{},{},{}", rng.pick(&["\"", "1", "x", ""]), rng.pick(&["\"", "\"\"", "2", " "]), rng.pick(&["\"", "3", "\"z\"", "&HD"])),
+                            7 => format!("{},{},{}", rng.pick(&["\"", "1", "x", "", "&", "&é"]), rng.pick(&["\"", "\"\"", "2", " ", "&H"]), rng.pick(&["\"", "3", "\"z\"", "&HD", "&"])),
+                            8 => rng.pick(&["&", "&H", "&é", "&h", "1,&", "&,&,&", "\u{a0}1", "\u{3000}"]).to_string(),
                             3 => soup(rng),
                             4 => long_line(rng),
                             _ => "1,x,1E99".to_string(),
@@ -376,7 +377,98 @@ fn finish_session(s: &mut Session, script: &mut Vec<String>, ctx: &mut Ctx) {
     }
 }
 
+/// Statements over a string temporary T of up to ~80,000 characters (a sum of 255-character strings).
+const BIG_TEMP_STATEMENTS: [&str; 18] = [
+    "PRINT LEN(T)",
+    "PRINT INSTR(T,\"Z\")",
+    "PRINT INSTR(300,T,\"é\")",
+    "B$=LEFT$(T,255):PRINT LEN(B$)",
+    "B$=RIGHT$(T,3):PRINT B$",
+    "PRINT LEN(MID$(T,33000))",
+    "PRINT LEN(MID$(T,2,33000))",
+    "PRINT T;:PRINT POS(0)",
+    "PRINT T;TAB(10);1",
+    "PRINT ASC(T)",
+    "B$=T",
+    "PRINT T=T",
+    "PRINT VAL(T)",
+    "IF T<T+\"A\" THEN PRINT 1",
+    "MID$(A$,2)=T:PRINT LEN(A$)",
+    "PRINT LEN(STR$(LEN(T)))",
+    "SWAP A$,B$:B$=T",
+    "PRINT LEN(LEFT$(T,40000))",
+];
+
 impl C03 {
+    /// Expression temporaries far larger than anything a variable can hold: every use must end in a
+    /// value or a BASIC error.
+    fn big_temp_case(&self, rng: &mut Rng, ctx: &mut Ctx) {
+        let terms = rng.range(2, 300) as usize;
+        let unit = *rng.pick(&["é", "x", "→", "Z"]);
+        let stmt = *rng.pick(&BIG_TEMP_STATEMENTS[..]);
+        let mut t = String::new();
+        for i in 0..terms {
+            if i > 0 {
+                t.push('+');
+            }
+            t.push_str("A$");
+        }
+        let line20 = format!("20 {}", stmt.replace('T', &format!("({})", t)).replace("PRIN(", "PRINT ("));
+        // T also occurs in keywords (PRINT, THEN, STR$, LEFT$, RIGHT$, INSTR, TAB): build by hand instead
+        let line20 = {
+            let mut o = String::from("20 ");
+            let b: Vec<char> = stmt.chars().collect();
+            for (i, c) in b.iter().enumerate() {
+                let prev_alpha = i > 0 && (b[i - 1].is_ascii_alphanumeric() || b[i - 1] == '$');
+                let next_alpha = i + 1 < b.len() && (b[i + 1].is_ascii_alphanumeric() || b[i + 1] == '$');
+                if *c == 'T' && !prev_alpha && !next_alpha {
+                    o.push('(');
+                    o.push_str(&t);
+                    o.push(')');
+                } else {
+                    o.push(*c);
+                }
+            }
+            let _ = line20;
+            o
+        };
+        if line20.len() > 1020 {
+            ctx.evals += 1;
+            return;
+        }
+        let lines = vec![format!("10 A$=STRING$(255,\"{}\"):B$=\"q\"", unit), line20, "30 PRINT \"END\"".to_string()];
+        let mut s = Session::new();
+        let mut script: Vec<String> = vec![];
+        for _ in 0..4 {
+            guard!(script, format!("execute {}", QBIG), s.step_q(QBIG));
+        }
+        for l in &lines {
+            guard!(script, format!("enter {:?}", l), s.enter(l));
+            for _ in 0..4 {
+                if guard!(script, format!("execute {}", QBIG), s.step_q(QBIG)) == Some(Stop::Stopped) {
+                    break;
+                }
+            }
+        }
+        guard!(script, "enter \"RUN\"".to_string(), s.enter("RUN"));
+        for _ in 0..400 {
+            if guard!(script, format!("execute {}", QBIG), s.step_q(QBIG)) == Some(Stop::Stopped) {
+                break;
+            }
+        }
+        // the events of this session can be huge (PRINT T): keep the log small for the common tail
+        for e in s.log.iter_mut() {
+            if let Ev::Print(p) = e {
+                if p.len() > 300 {
+                    p.truncate(p.char_indices().nth(100).map(|(i, _)| i).unwrap_or(0));
+                }
+            }
+        }
+        ctx.cover("statements_over_huge_string_temporaries", stmt);
+        ctx.max("largest_string_temporary_characters", (terms * 255) as u64);
+        finish_session(&mut s, &mut script, ctx);
+    }
+
     /// A program around the size of the 64K code / DATA pool (a little below, at, beyond), then ordinary
     /// commands: everything must stay a BASIC error and the prompt must keep working.
     fn oversized_case(&self, rng: &mut Rng, ctx: &mut Ctx) {
@@ -459,6 +551,9 @@ impl C03 {
     fn edge_case(&self, rng: &mut Rng, ctx: &mut Ctx) {
         if rng.chance(1, 12) {
             return self.oversized_case(rng, ctx);
+        }
+        if rng.chance(1, 4) {
+            return self.big_temp_case(rng, ctx);
         }
         let n = 16_370 + rng.range(0, 14);
         let gosubs = rng.range(0, 3);
